@@ -682,6 +682,26 @@ def where(cond, *a):
     return _np.where(cond, *a)
 
 
+def _truth_mask(a):
+    a = _np.asarray(a)
+    if a.dtype != object:
+        return a != 0
+    return _np.array([bool(v) if isinstance(v, (SymBool, bool, _np.bool_)) else bool(v != 0) for v in a.flat],
+                     dtype=bool).reshape(a.shape)
+
+
+def flatnonzero(a):
+    return _np.flatnonzero(_truth_mask(a))
+
+
+def nonzero(a):
+    return _np.nonzero(_truth_mask(a))
+
+
+def count_nonzero(a, axis=None):
+    return _np.count_nonzero(_truth_mask(a), axis=axis)
+
+
 def logical_and(a, b):
     if isinstance(a, _np.ndarray) and a.dtype == object:
         a = _np.array([bool(c) for c in a.flat], dtype=bool).reshape(a.shape)
@@ -989,7 +1009,7 @@ for _k, _v in dict(
         maximum=maximum, minimum=minimum, sum=asum, mean=mean, any=aany, all=aall, argmax=argmax,
         argmin=argmin, argsort=argsort, argpartition=argpartition, sort=sort, append=append,
         hstack=hstack, vstack=vstack, column_stack=column_stack, diff=diff, dot=dot, cumsum=cumsum,
-        where=where, logical_and=logical_and, isclose=isclose, cos=cos, arccos=arccos).items():
+        where=where, logical_and=logical_and, flatnonzero=flatnonzero, nonzero=nonzero, count_nonzero=count_nonzero, isclose=isclose, cos=cos, arccos=arccos).items():
     setattr(npx, _k, _v)
 
 
